@@ -844,6 +844,9 @@ Definition tamper (cs : list cspec) (kind : Z) (a b : nat) (repl : str) (wires :
     | _, w1 :: rest => join [59; 32] (w1 :: repl :: rest)
     | _, [] => repl
     end
+  | 8%Z, w1 :: _ =>
+    (* text appended to the cookie value: inserted before the last character (the closing quote) *)
+    removelast w1 ++ repl ++ match rev w1 with x :: _ => [x] | [] => [] end
   | 7%Z, _ =>
     (* one character of the header written as its percent escape *)
     match length hdr with
